@@ -52,4 +52,6 @@ static inline va_hdr* va_next(va_hdr* h) { return h->next; }
 static inline void* va_user(va_hdr* h) { return (void*)(h + 1); }
 /* hash of (serial-independent) byte image of all live blocks: addresses, sizes and contents */
 uint64_t va_image_hash(void);
+uint64_t va_serial(void);                       /* serial number the next block will get */
+uint64_t va_image_hash_before(uint64_t serial); /* image of the live blocks allocated before that serial */
 #endif
